@@ -207,25 +207,43 @@ theorem refusals (r : SubRequest) :
     ∧ (r.opselOk = true → r.varsOk = true → (r.operation ≠ .subscription ∨ r.streamRuntime = false) →
         subscribe r = .refused "RuntimeError" false 0)
     ∧ (r.opselOk = true → r.varsOk = true → r.operation = .subscription → r.streamRuntime = true →
+        r.rootCollectOk = true →
         (collectSels r.root []).length ≠ 1 → subscribe r = .refused "ExecutionError" false 0)
     ∧ (r.opselOk = true → r.varsOk = true → r.operation = .subscription → r.streamRuntime = true →
+        r.rootCollectOk = true →
         (collectSels r.root []).length = 1 → (r.fieldDefined = false ∨ r.hasSubResolver = false) →
         subscribe r = .refused "RuntimeError" false 0)
     ∧ (r.opselOk = true → r.varsOk = true → r.operation = .subscription → r.streamRuntime = true →
+        r.rootCollectOk = true → r.argsOk = true →
         (collectSels r.root []).length = 1 → r.fieldDefined = true → r.hasSubResolver = true →
         subscribe r = .stream (responses true ⟨[]⟩ 0 r.events) (r.events.length + 1)) := by
-  obtain ⟨oo, vo, op, root, fd, hs, rt, evs⟩ := r
+  obtain ⟨oo, vo, op, root, fd, hs, rt, rc, ao, evs⟩ := r
   refine ⟨?_, ?_, ?_, ?_, ?_, ?_, ?_⟩
   · intro h; simp_all [subscribe]
   · intro h1 h2; simp_all [subscribe]
   · intro h1 h2 h3; simp_all [subscribe]
   · rintro h1 h2 (h | h) <;> simp_all [subscribe]
-  · intro h1 h2 h3 h4 h5; simp_all [subscribe]
-  · intro h1 h2 h3 h4 h5 h6
+  · intro h1 h2 h3 h4 hc h5; simp_all [subscribe]
+  · intro h1 h2 h3 h4 hc h5 h6
     rcases h6 with h | h <;> simp_all [subscribe]
-  · intro h1 h2 h3 h4 h5 h6 h7
+  · intro h1 h2 h3 h4 hc ha h5 h6 h7
     have := collect_eq_responses true (evs.length + 1) ⟨evs, ⟨[]⟩, 0, 0⟩ (by simp)
     simp_all [subscribe]
+
+/-- **refusals, conditions that cannot be evaluated** — a subscription whose root `@skip` / `@include`
+    condition, or whose subscription-field argument, cannot be coerced (a defaulted nullable variable sent
+    as `null` at a non-null position: the document validates and the variables are accepted) is refused
+    with `ExecutionError` — the class `subscribe` uses to refuse a request — and neither the subscription
+    resolver is called nor an event pulled. -/
+theorem refusals_uncomputable (r : SubRequest)
+    (h1 : r.opselOk = true) (h2 : r.varsOk = true) (h3 : r.operation = .subscription) (h4 : r.streamRuntime = true) :
+    (r.rootCollectOk = false → subscribe r = .refused "ExecutionError" false 0)
+    ∧ (r.rootCollectOk = true → (collectSels r.root []).length = 1 → r.fieldDefined = true → r.hasSubResolver = true →
+        r.argsOk = false → subscribe r = .refused "ExecutionError" false 0) := by
+  obtain ⟨oo, vo, op, root, fd, hs, rt, rc, ao, evs⟩ := r
+  refine ⟨?_, ?_⟩
+  · intro h; simp_all [subscribe]
+  · intro a b c d e; simp_all [subscribe]
 
 /-- an accepted subscription: one result per event, in order, each the fresh execution of its
     event, errors isolated, source pulled `n + 1` times (the stream ends with the source) -/
@@ -242,25 +260,33 @@ theorem accepted_stream (r : SubRequest) (rs : List Result) (pulls : Nat) (h : s
   case neg => rw [R.2.2.1 c0 c1 (by simpa using c0')] at h; cases h
   by_cases c2 : r.streamRuntime = true
   case neg => rw [R.2.2.2.1 c0 c0' (.inr (by simpa using c2))] at h; cases h
+  have U := refusals_uncomputable r c0 c0' c1 c2
+  by_cases cc : r.rootCollectOk = true
+  case neg => rw [U.1 (by simpa using cc)] at h; cases h
   by_cases c3 : (collectSels r.root []).length = 1
-  case neg => rw [R.2.2.2.2.1 c0 c0' c1 c2 c3] at h; cases h
+  case neg => rw [R.2.2.2.2.1 c0 c0' c1 c2 cc c3] at h; cases h
   by_cases c4 : r.fieldDefined = true
-  case neg => rw [R.2.2.2.2.2.1 c0 c0' c1 c2 c3 (.inl (by simpa using c4))] at h; cases h
+  case neg => rw [R.2.2.2.2.2.1 c0 c0' c1 c2 cc c3 (.inl (by simpa using c4))] at h; cases h
   by_cases c5 : r.hasSubResolver = true
-  case neg => rw [R.2.2.2.2.2.1 c0 c0' c1 c2 c3 (.inr (by simpa using c5))] at h; cases h
-  rw [R.2.2.2.2.2.2 c0 c0' c1 c2 c3 c4 c5] at h
+  case neg => rw [R.2.2.2.2.2.1 c0 c0' c1 c2 cc c3 (.inr (by simpa using c5))] at h; cases h
+  by_cases ca : r.argsOk = true
+  case neg => rw [U.2 cc c3 c4 c5 (by simpa using ca)] at h; cases h
+  rw [R.2.2.2.2.2.2 c0 c0' c1 c2 cc ca c3 c4 c5] at h
   injection h with h1 h2
   subst h1 h2
   refine ⟨one_result_per_event _ _ _ _, rfl, ?_, ?_⟩
   · intro j; simpa using kth_result_is_exec_of_kth_event ⟨[]⟩ 0 r.events j
   · intro j res hj; simpa using errors_isolated ⟨[]⟩ 0 r.events j res hj
 
-example : ∃ rs pulls, subscribe ⟨true, true, .subscription, [.field (some "root"), .spread [.field (some "root")]], true, true, true,
+example : ∃ rs pulls, subscribe ⟨true, true, .subscription, [.field (some "root"), .spread [.field (some "root")]], true, true, true, true, true,
     [evFail, evOk, evFail]⟩ = .stream rs pulls ∧ rs.length = 3 :=
   ⟨_, _, rfl, by decide⟩
 
+example : subscribe ⟨true, true, .subscription, [.field (some "tick")], true, true, true, true, false, [evOk]⟩
+    = .refused "ExecutionError" false 0 := rfl
+
 /-- the spelling the seeded change let through: one fragment spread that expands to two fields -/
-example : subscribe ⟨true, true, .subscription, [.spread [.field (some "counter"), .field (some "doubled")]], true, true, true, [evOk]⟩
+example : subscribe ⟨true, true, .subscription, [.spread [.field (some "counter"), .field (some "doubled")]], true, true, true, true, true, [evOk]⟩
     = .refused "ExecutionError" false 0 := rfl
 
 end PyGql.Props.C17
